@@ -34,6 +34,8 @@ def setup(ctx):
 
 def generate(ctx):
     rng = ctx.rng
+    if ctx.shard in ctx.pick((0,), (0, 1, 2)):
+        yield "huge_level", dict(k=1, depth=12 if ctx.quick() else 13, drop=rng.randrange(16))
     ks = ctx.pick([1, 2, 2, 3, 3, 4, 5], [1, 2, 3, 3, 4, 4, 5, 5])
     for _ in range(ctx.pick(500, 4000)):
         k = rng.choice(ks)
@@ -114,7 +116,10 @@ def check_graph(ctx, case):
             if mat.shape != (n, n) or not np.array_equal(mat, want):
                 ctx.fail("matrix-content", "adjacency matrix differs from the arc set; %s" % where)
             else:
-                back = monitored(dsw.adjacency_matrix_to_accessor, big * 4, frozen(mat))
+                layout = rng.choice(["C", "C", "F", "T"])
+                arg = frozen(mat) if layout == "C" else np.asfortranarray(mat) if layout == "F" else np.ascontiguousarray(mat.T).T
+                ctx.cls("matrix layout|" + layout)
+                back = monitored(dsw.adjacency_matrix_to_accessor, big * 4, arg)
                 if back.kind != "ok" or not np.array_equal(np.asarray(back.value), acc):
                     ctx.fail("matrix-round-trip", "adjacency_matrix_to_accessor(accessor_to_adjacency_matrix(a)) != a (%s); %s" % (
                         back.describe() if back.kind != "ok" else "differs", where))
@@ -195,7 +200,7 @@ def check_graph(ctx, case):
     # G2: the same latter-map / accessor objects edited in place (an arc removed), leaf queries repeated
     if lm is not None and want_lm:
         live_acc = np.array(acc)
-        live_lm = {int(a): [int(x) for x in b] for a, b in lm.items()}
+        live_lm = lm        # the very object the library returned: lists shared between vertices would show below
         root = rng.choice(sorted(want_lm))
         for d in range(0, min(k + 2, 5)):
             dsw.obtain_leaf_vertices(root, d, accessor=live_acc)
@@ -203,9 +208,15 @@ def check_graph(ctx, case):
         u = rng.choice(sorted(want_lm))
         w_rm = rng.choice(want_lm[u])
         live_acc[u, w_rm % 4] = -1
-        live_lm[u].remove(w_rm)
-        if not live_lm[u]:
-            del live_lm[u]
+        key_u = [a for a in live_lm if int(a) == u][0]
+        live_lm[key_u].remove(w_rm)
+        if not live_lm[key_u]:
+            del live_lm[key_u]
+        now = {int(a): sorted(int(x) for x in b) for a, b in live_lm.items()}
+        expect = {v: sorted(int(w) for w in live_acc[v] if w >= 0) for v in range(n) if (live_acc[v] >= 0).any()}
+        if now != expect:
+            ctx.fail("latter-map-lists-shared", "after one follower was removed from vertex %d's list of the returned latter map, other vertices changed too: %s" % (
+                u, [v for v in expect if now.get(v) != expect[v]][:5]))
         for d in range(0, min(k + 2, 5)):
             level = Counter({root: 1})
             for _ in range(d):
@@ -228,7 +239,36 @@ def check_graph(ctx, case):
     ctx.done("graph", case, nontrivial)
 
 
-CHECKS = {"graph": check_graph}
+def check_huge_level(ctx, case):
+    """Leaf query whose intermediate breadth-first levels exceed a million vertices (order 1, one arc removed, depth 12-13)."""
+    dsw = import_dsw()
+    k, d = case["k"], case["depth"]
+    acc = G.complete(k)
+    acc[case["drop"] // 4 % 4, case["drop"] % 4] = -1
+    level = Counter({0: 1})
+    for _ in range(d):
+        nxt = Counter()
+        for v, c in level.items():
+            for w in acc[v]:
+                if w >= 0:
+                    nxt[int(w)] += c
+        level = nxt
+    lm = {v: [int(w) for w in acc[v] if w >= 0] for v in range(4)}
+    for name, kw in (("accessor", dict(accessor=acc)), ("latter map", dict(latter_map=lm))):
+        r = monitored(dsw.obtain_leaf_vertices, 10 ** 9, 0, d, **kw)
+        if r.kind != "ok":
+            ctx.fail("leaf-query", "obtain_leaf_vertices(0, depth %d, %s) on an order-1 graph %s" % (d, name, r.describe()))
+            continue
+        got = np.bincount(np.asarray(r.value).astype(int).reshape(-1), minlength=4)
+        if got.tolist() != [level.get(v, 0) for v in range(4)]:
+            ctx.fail("leaf-query", "obtain_leaf_vertices(0, depth %d, %s): multiset %s, expected %s (%d walks)" % (
+                d, name, got.tolist(), [level.get(v, 0) for v in range(4)], sum(level.values())))
+    ctx.obs("largest leaf level", sum(level.values()))
+    ctx.cls("leaf-query|level beyond a million vertices")
+    ctx.done("huge_level", case, True)
+
+
+CHECKS = {"graph": check_graph, "huge_level": check_huge_level}
 
 
 def floors(agg, tier):
@@ -236,7 +276,7 @@ def floors(agg, tier):
     c = agg["classes"]
     for name, need in (("density|partial", 500), ("density|empty", 20), ("density|complete", 20), ("illegal-matrix|rejected", 1000),
                        ("leaf-query|live root", 1000), ("leaf-query|dead root", 200), ("k|5", 20),
-                       ("hand-built map in arbitrary order", 500), ("illegal-matrix|re-wired rejected", 500),
+                       ("hand-built map in arbitrary order", 500), ("matrix layout|F", 200), ("matrix layout|T", 200), ("leaf-query|level beyond a million vertices", 1), ("illegal-matrix|re-wired rejected", 500),
                        ("earlier matrix re-read after a later conversion (k=5)", 20), ("leaf queries repeated after an in-place edit", 500)):
         if c.get(name, 0) < need:
             out.append("%s observed %d < %d" % (name, c.get(name, 0), need))
